@@ -39,6 +39,43 @@ CHECKS = {
         ref='7 C19', note=FSM_NOTE),
 }
 
+CHECKS.update({
+    'C17': dict(
+        technique='Lean 4 theorem code_eq_spec (for every uint64 index and every 32-byte hash function; generated SSZ op lists and wiring interpreted against a hand-written consensus-spec model) + kernel-evaluated facts about the generated baked run table + exhaustive differential sszdiff',
+        text=("Proof. lean/Dc4bcVerif/Props/C17.lean: code_eq_spec (GetSigningRoot as wired in rotation.go over the fastssz-generated hashers = "
+              "compute_signing_root(BLSToExecutionChange(idx, Lido key, Lido address), compute_domain(...)) for EVERY uint64 index and every hash "
+              "function with 32-byte output), constants_ok, baked_count / baked_strictly_increasing / baked_nodup / baked_wellformed (every position "
+              "0..18631 yields one well-formed index) and out_of_range_refused (negative, 18632, beyond: error, never panic, never a message). "
+              "The op lists, field sizes, constants, wiring and the baked list are regenerated from /repo on every run. Tie: sszdiff runs the compiled "
+              "Lean model with a Lean SHA-256 against the real Go code on all 18,632 positions, boundaries and random indices, and an independent "
+              "Go re-computation of the spec root (plain sha256) is used as implementation-side monitor."),
+        ref='7 C17',
+        note=("Trusted: Lean kernel + the three standard axioms; translator (SSZ schema, constants, wiring, baked run table whose expansion hash is compared "
+              "with the embedded file on every run); sszdiff. Modelled, not verified: fastssz's Hasher/merkleizeImpl (modelled by the spec's merkleize), "
+              "crypto/sha256 (Lean re-implementation validated per run), strconv/strings. The spec constants are those written in Props/C17.lean.")),
+    'C03': dict(
+        technique='Lean 4 theorems about the expansion model (list homomorphism, exact explicit payloads, per-position baked messages, last-wins agreement of the consumers) + differential sszdiff/fsmdiff',
+        text=("Proof. lean/Dc4bcVerif/Props/C03.lean: explicit_payload_exact, expansion_append (order preserved, same function for every participant), "
+              "expansion_fails_atomically, range_messages (one message per position, carrying the index found there; its payload is C17's function), "
+              "consumers_agree (signer/FSM map and reconstruction map pick the same expanded message per id). Tie: sszdiff compares TasksToMessages / "
+              "ReconstructBakedMessage with the model on generated mixed batches; fsmdiff + Go monitors check on every accepted proposal that the "
+              "SrcPayload kept in the round decodes to exactly the proposed tasks (nil vs empty payload included) and expands identically. "
+              "The end-to-end path through the airgapped signer and the signature store is exercised by the C01 ceremony driver when present."),
+        ref='7 C03',
+        note=("Trusted: as C17 plus fsmdiff. Modelled, not verified: encoding/json of []SigningTask; the three consumers are modelled as last-wins maps "
+              "over the expanded list (read off bls.go, node_service.go, signature.go), tied only through the differential runs.")),
+    'C16': dict(
+        technique='Lean 4 theorems about the board model by induction over send histories (offset = position, append-only, exactly-once, read = filtered suffix) with the two scanner limits regenerated from source + differential boarddiff with concurrent writers',
+        text=("Proof. lean/Dc4bcVerif/Props/C16.lean: offset_eq_position (every entry carries its position for every history of sends of reader-acceptable "
+              "sizes, any number of writers/interleavings because send is one atomic step under the lock), append_only, exactly_once, read_suffix, and "
+              "count_limit_covers_reader about the limits read from fileStorage.go on this run (small_count_limit_breaks_offsets shows the pinned tree's "
+              "64 KiB counter violated it). Tie: boarddiff runs 1-4 writers on separate handles (goroutines; OS processes for every 4th history) with sizes "
+              "up to just under 1 MiB, feeds the observed file to the Lean model as the linearisation and compares every offset and every GetMessages answer."),
+        ref='7 C16',
+        note=("Trusted: flock(2) exclusion between open file descriptions, O_APPEND single-write appends, bufio.Scanner limit semantics (a line is delivered iff "
+              "len+1 <= limit), the translator reading the two limits. Messages of 1 MiB or more are outside the property (the reader refuses them) and are not sent by the driver.")),
+})
+
 PLANNED = ['C01', 'C02', 'C03', 'C04', 'C07', 'C08', 'C09', 'C10', 'C11', 'C12', 'C13', 'C14', 'C15', 'C16', 'C17', 'C18', 'C20']
 
 try:
